@@ -9,7 +9,10 @@ Rec == Recs[i]
 AsSeq(s) == [k \in 1..Len(s) |-> s[k]]
 Mat(M) == [m \in 1..Len(M) |-> [n \in 1..Len(M) |-> <<M[m][n][1], M[m][n][2]>>]]
 
-Clauses ==
+(* records of non-degenerate spectra carry om / den / grp / sea; records of degenerate spectra (no field om) carry
+     mult : [a, b, v]  0-based half-open blocks = the multiplets, v = round(trace over the multiplet * DenIO)
+     msea : [b, v]     Fermi sea up to (excluding) band b, a multiplet border, v = round(sea * DenIO(E, 1..b)) *)
+NonDegClauses ==
    LET E == AsSeq(Rec.E)  Vx == Mat(Rec.Vx)  Vy == Mat(Rec.Vy)  om == AsSeq(Rec.om)  nb == Len(Rec.E) IN
    [ hermitian_input |-> IsHermitian(Vx, nb) /\ IsHermitian(Vy, nb),
      den_equals_spec |-> Rec.den = Den(E),
@@ -23,6 +26,20 @@ Clauses ==
      (* Rec.sea[j] = numerator of the Fermi-sea sum with j bands occupied (from static.AHC on the same data), j = 0..nb *)
      sea_equals_spec |-> \A j \in 1..Len(Rec.sea) : Rec.sea[j] = SeaNum(om, j - 1),
      sea_full_zero |-> Len(Rec.sea) = nb + 1 => Rec.sea[nb + 1] = 0 ]
+DegClauses ==
+   LET E == AsSeq(Rec.E)  Vx == Mat(Rec.Vx)  Vy == Mat(Rec.Vy)  nb == Len(Rec.E)  ng == Len(Rec.mult)
+       Blk(g) == (Rec.mult[g][1] + 1)..Rec.mult[g][2]
+       DenOthers(g) == ProdR(1, ng, LAMBDA h : IF h = g THEN 1 ELSE DenIO(E, Blk(h)))
+   IN
+   [ hermitian_input |-> IsHermitian(Vx, nb) /\ IsHermitian(Vy, nb),
+     multiplets_cover |-> /\ ng >= 1 /\ Rec.mult[1][1] = 0 /\ Rec.mult[ng][2] = nb
+                          /\ \A g \in 1..ng : Rec.mult[g][1] < Rec.mult[g][2] /\ \A m, n \in Blk(g) : E[m] = E[n]
+                          /\ \A g \in 1..(ng - 1) : Rec.mult[g][2] = Rec.mult[g + 1][1] /\ E[Rec.mult[g][2]] < E[Rec.mult[g][2] + 1],
+     multiplet_equals_spec |-> \A g \in 1..ng : Rec.mult[g][3] = OmegaNumIO(E, Vx, Vy, Blk(g)),
+     multiplet_sum_rule |-> SumR(1, ng, LAMBDA g : Rec.mult[g][3] * DenOthers(g)) = 0,
+     msea_equals_spec |-> \A j \in 1..Len(Rec.msea) : Rec.msea[j][2] = OmegaNumIO(E, Vx, Vy, 1..Rec.msea[j][1]),
+     msea_full_zero |-> \A j \in 1..Len(Rec.msea) : Rec.msea[j][1] = nb => Rec.msea[j][2] = 0 ]
+Clauses == IF "om" \in DOMAIN Rec THEN NonDegClauses ELSE DegClauses
 Report == \A n \in DOMAIN Clauses : Clauses[n] \/ PrintT(<<"BAD", i, n>>)
 RecInit == i \in 1..Len(Recs)
 RecSpec == RecInit /\ [][UNCHANGED i]_i
